@@ -11,7 +11,7 @@ STATUSES = [200, 200, 201, 204, 299, 301, 404, 418, 500, 599, 600]
 HDR_NAMES = ["X-A", "x-b", "Cache-Control", "X-Long-Header-Name", "Server", "X-é".encode("latin-1").decode("latin-1")]
 HDR_VALUES = ["1", "a b", "é", "x; y=z", "", "in\tner", "v" * 40]
 TEXTS = ["", "hello", "héllo wörld", "中文", "line1\nline2", "\U0001f600", "a" * 100]
-COOKIE_VALUES = ["v", "a b", "é", 'q"q', "x;y", "", "a,b=c"]
+COOKIE_VALUES = ["v", "a b", "é", 'q"q', "x;y", "", "a,b=c", "x\r\nSet-Cookie: admin=1", "a\x0bb\x0c", "t\tab", "nul\x00", "\x7f\x80\xff", "back\\slash", "line\n"]
 IRIS = ["/", "/a b", "/中文?q=é", "https://example.com/x?y=1#f", "/%20ok", "//other.example/p", "/a b"]
 DOWNLOAD_NAMES = [None, None, "a.txt", "a b.txt", "é.txt", "中文.txt", 'q"q.bin', "semi;colon.txt", "x.unknownext"]
 
